@@ -1191,6 +1191,12 @@ class RTCSctpTransport(AsyncIOEventEmitter):
         # find stream
         inbound_stream = self._get_inbound_stream(chunk.stream_id)
 
+        # a chunk which is still waiting in the reassembly queue is a duplicate
+        # too, even if the cumulative TSN has moved so far ahead (2^31) that
+        # _mark_received() no longer recognises its TSN
+        if any(c.tsn == chunk.tsn for c in inbound_stream.reassembly):
+            return
+
         # defragment data
         inbound_stream.add_chunk(chunk)
         self._advertised_rwnd -= len(chunk.user_data)
